@@ -52,14 +52,30 @@ def run(ctx):
         up = _upvars(ex, cf)
         patn = _upvar_names(pat, up)
         wthn = _upvar_names(wth, up)
-        ctx.ob("R1", "pattern-is-R", patn == ["replace_str"] and not [c for c in pat.callees() if c.split("::")[-1].split("<")[0] not in IDENTITY], "pattern operand is %s (captures %s); must be the replace string R unchanged" % (pat.fmt(), patn), fn=cf, where=prim.site(cf, b), how="provenance slice (closure capture)")
-        ctx.ob("R1", "replacement-is-the-line", wthn == ["replacement"] and not [c for c in wth.callees() if c.split("::")[-1].split("<")[0] not in IDENTITY], "replacement operand is %s (captures %s)" % (wth.fmt(), wthn), fn=cf, where=prim.site(cf, b), how="provenance slice (closure capture)")
+        # role of each captured variable: where its value comes from in `execute` (names are not relied upon)
+        caps = _capture_origins(ex, cf)
+        def cap_of(o):
+            idx = [int(x.a) for x in o.walk() if x.k == "field" and x.kids and x.kids[0].strip().k == "arg" and x.kids[0].strip().a["idx"] == 1 and str(x.a).isdigit()]
+            return [caps.get(i) for i in idx]
+        pco = cap_of(pat)
+        wco = cap_of(wth)
+        pat_role = len(pco) == 1 and pco[0] is not None and any(x.k == "field" and x.a == "replace" for x in pco[0].walk()) and not any(x.k == "field" and x.a == "extra_args" for x in pco[0].walk())
+        wth_role = len(wco) == 1 and wco[0] is not None and any(x.k == "field" and x.a == "extra_args" for x in prim.expand_single_def_vars(ex, wco[0]).walk())
+        ctx.ob("R1", "pattern-is-R", (patn == ["replace_str"] or pat_role) and not [c for c in pat.callees() if c.split("::")[-1].split("<")[0] not in IDENTITY], "pattern operand is %s (captures %s); must be the replace string R unchanged" % (pat.fmt(), patn), fn=cf, where=prim.site(cf, b), how="provenance slice (closure capture)")
+        ctx.ob("R1", "replacement-is-the-line", (wthn == ["replacement"] or wth_role) and not [c for c in wth.callees() if c.split("::")[-1].split("<")[0] not in IDENTITY], "replacement operand is %s (captures %s)" % (wth.fmt(), wthn), fn=cf, where=prim.site(cf, b), how="provenance slice (closure capture)")
         # result of the closure = OsString::from(replace(..)) only
         ret = prim.origin_of_local(cf, 0)
         bad = [c for c in ret.callees() if c.split("::")[-1].split("<")[0] not in IDENTITY + ("replace",)]
         ctx.ob("R1", "closure-returns-substituted", not bad and any(c.endswith("::replace") or "replace" in c.split("::")[-1] for c in ret.callees()), "the closure returns %s (offending calls %s)" % (ret.fmt()[:160], bad), fn=cf, how="provenance slice")
     # `replacement` in execute: extra_args first element, identity conversions only (the entire line: no trim)
     rl = ex.locals_named("replacement")
+    if not rl and repl_calls:
+        # role: the user local captured as the `with` operand of str::replace
+        try:
+            wco_ = cap_of(wth)
+            rl = [x.a["local"] for x in wco_[0].walk() if x.k == "var" and x.a.get("name")] if wco_ and wco_[0] is not None else []
+        except Exception:
+            rl = []
     if not rl:
         ctx.missing("R1", "local `replacement` in execute")
     else:
@@ -329,3 +345,14 @@ def _sim_until_out(edges, asg):
             return None
         cur = picks[0]
     return None
+
+
+def _capture_origins(ex, cf):
+    """closure environment field index -> Origin (in the enclosing function) of the captured value"""
+    out = {}
+    for b in ex.reachable():
+        for st in ex.blocks[b].stmts:
+            if st.rv is not None and st.rv.k == "agg" and st.rv.j.get("ak") in ("closure", "coroutine") and st.rv.j.get("def") == cf.path:
+                for i, op in enumerate(st.rv.ops):
+                    out[i] = prim.origin_of_operand(ex, op)
+    return out
